@@ -81,6 +81,13 @@ def gen(rng, tier):
     for j in range(2 if tier == "quick" else 12):
         L = [70000, 65537, 200000][j % 3]
         cases.append("E %d ok 0 %s" % (S, upload("/g%d" % (L + 5), L, [L // 2, 1][j % 2], True, False, rng.randint(1, 10**6), False)))
+    # a handler that takes a while over a received upload (/gw<ms>): with a Prefer: wait=1 request field (mode V), and with
+    # the server's permit revoked meanwhile (mode R) -- whatever the server answers and whenever, the temp file is gone
+    # when the connection has ended
+    head = "POST /gw1500 HTTP/1.1\r\nPrefer: wait=1\r\nContent-Length: 70000\r\n\r\n"
+    cases.append("V %d ok 0 0 %s+g70000,%d" % (S, hx(head), rng.randint(1, 10**6)))
+    head = "POST /gw1500 HTTP/1.1\r\nContent-Length: 70000\r\n\r\n"
+    cases.append("R %d ok 0 0 %s+g70000,%d" % (S, hx(head), rng.randint(1, 10**6)))
     # idle keep-alive: the client has read the answers and keeps the connection open without sending anything; no temp
     # file may be alive then (mode I: known-length uploads answered 2xx, one or two on the same connection)
     ni = 6 if tier == "quick" else 60
